@@ -38,6 +38,11 @@ func init() {
 		x.trusted["lo.Filter: result is a fresh slice whose elements are elements of the input (predicate not executed)"] = true
 		return x.subsetSlice(n.st, reach, hint, args[0], resultType(in, c)), nil
 	})
+	// lo.Subset(collection, offset, length) -> a window of the collection (modelled as a fresh slice of its elements)
+	regLib("github.com/samber/lo.Subset", func(x *FnExec, fr *frame, n *node, in ssa.Instruction, c *ssa.CallCommon, args []Val, reach, hint string) (Val, error) {
+		x.trusted["lo.Subset: result holds only elements of the input, at most as many (window position not modelled)"] = true
+		return x.subsetSlice(n.st, reach, hint, args[0], resultType(in, c)), nil
+	})
 	regLib("github.com/samber/lo.Uniq", func(x *FnExec, fr *frame, n *node, in ssa.Instruction, c *ssa.CallCommon, args []Val, reach, hint string) (Val, error) {
 		return x.subsetSlice(n.st, reach, hint, args[0], resultType(in, c)), nil
 	})
